@@ -30,6 +30,16 @@
 (* gets the successor of the latest key (1 on an empty level), so it is a  *)
 (* NEW key (nothing written earlier is replaced) and the new maximum (the  *)
 (* next run, which opens "latest", continues from what was committed).     *)
+(*                                                                         *)
+(* What a level holds reaches the directory through a registry PROVIDER,   *)
+(* whose contract (asset.Registry.releases / generations) lets it report   *)
+(* each entry in any of several FORMS: as a constructed key ("key", what   *)
+(* the bundled providers do), as its plain name ("str") or - generations   *)
+(* only - as a plain number ("int").  Nothing of the requirement depends   *)
+(* on the form: listing, latest and commit are functions of `dirs` alone.  *)
+(* One latitude: a provider that REPORTS a name which is no key (the "key" *)
+(* form cannot) may have the whole report refused (Key.Invalid) instead of *)
+(* the name being left out - both reject the invalid key (MayReject).      *)
 (***************************************************************************)
 EXTENDS Integers, Sequences, FiniteSets, TLC, Json
 CONSTANTS Mode,       \* "release" | "generation"
@@ -39,9 +49,14 @@ CONSTANTS Mode,       \* "release" | "generation"
           NInvalid    \* number of invalid names
 VARIABLES dirs,      \* the sub-directories of the level
           listing,   \* what listing the level returns
-          put        \* number of the generation committed on top of this level (0 = nothing committed yet)
-vars == <<dirs, listing, put>>
+          put,       \* number of the generation committed on top of this level (0 = nothing committed yet)
+          form       \* the form in which the provider reports the level (never read by the requirement)
+vars == <<dirs, listing, put, form>>
 
+\* the forms in which the provider reports the entries of a level (a number is no release name), and the
+\* number of entries per level reported in another form than "key" (order, duplicates and rejection show in pairs)
+Forms == IF Mode = "release" THEN {"key", "str"} ELSE {"key", "str", "int"}
+MaxRaw == IF Mode = "release" THEN 2 ELSE 3
 None == -1
 Inf == 1000000
 NoLoc == <<>>
@@ -175,15 +190,15 @@ Sorted(S) == IF S = {} THEN <<>> ELSE LET m == CHOOSE x \in S : \A y \in S : ~Le
 Listing == listing
 Latest == IF Listing = <<>> THEN 0 ELSE Listing[Len(Listing)]       \* 0 = Listing.Empty
 
-Init == dirs = {} /\ listing = <<>> /\ put = 0
-Mkdir(d) == /\ put = 0 /\ d \notin dirs /\ Cardinality(dirs) < MaxKeys
-            /\ dirs' = dirs \cup {d} /\ listing' = Sorted(KeysOf(dirs')) /\ UNCHANGED put
+Init == dirs = {} /\ listing = <<>> /\ put = 0 /\ form \in Forms
+Mkdir(d) == /\ put = 0 /\ d \notin dirs /\ Cardinality(dirs) < (IF form = "key" THEN MaxKeys ELSE MaxRaw)
+            /\ dirs' = dirs \cup {d} /\ listing' = Sorted(KeysOf(dirs')) /\ UNCHANGED <<put, form>>
 AddValid(d) == Accepted(d) /\ Mkdir(d)
 AddInvalid(d) == ~Accepted(d) /\ Mkdir(d)
 \* Release.put: the generation after the latest one, the first one on a level without a valid generation
 \* (`dirs` / `listing` keep describing the level the commit started from; the level afterwards is ListingAfter)
 NextGen == IF Latest = 0 THEN 1 ELSE Gens[Latest] + 1
-Commit == Mode = "generation" /\ put = 0 /\ put' = NextGen /\ UNCHANGED <<dirs, listing>>
+Commit == Mode = "generation" /\ put = 0 /\ put' = NextGen /\ UNCHANGED <<dirs, listing, form>>
 Next == Commit \/ \E d \in Entries : AddValid(d) \/ AddInvalid(d)
 Spec == Init /\ [][Next]_vars
 
@@ -207,13 +222,18 @@ CommitIsLatest == Committed => /\ \A d \in dirs : Accepted(d) => Gens[d.v] < put
                                /\ \A i \in 1..(Len(ListingAfter) - 1) : ListingAfter[i] < ListingAfter[i + 1]
 CommitIsSuccessor == Committed => put = (IF Listing = <<>> THEN 1 ELSE Gens[Listing[Len(Listing)]] + 1)
 
+\* a reported name that is no key is rejected by leaving it out or by refusing the report
+MayReject == form # "key" /\ \E d \in dirs : ~Accepted(d)
+\* the requirement does not depend on the form of the report: levels with the same entries list the same
+FormIrrelevant == listing = Sorted(KeysOf(dirs))
+
 \* exports: the lattice with the full comparison matrix once, the expected listing of every level state
 SetToSeq(S) == LET RECURSIVE F(_) F(T) == IF T = {} THEN <<>> ELSE LET x == CHOOSE y \in T : TRUE IN <<x>> \o F(T \ {x}) IN F(S)
 Lattice == [mode |-> Mode,
             keys |-> IF Mode = "release" THEN [i \in VIdx |-> [ver |-> Versions[i], gen |-> 0, valid |-> TRUE, canon |-> Canon(i)]]
                      ELSE [i \in VIdx |-> [ver |-> Ver(0, <<>>, 0, 0, None, None, NoLoc), gen |-> Gens[i], valid |-> ValidIdx(i), canon |-> Canon(i)]],
             cmp |-> [i \in VIdx |-> [j \in VIdx |-> Cmp(i, j)]]]
-Export == /\ (dirs = {} /\ put = 0 => PrintT(ToJson([lattice |-> Lattice])))
-          /\ PrintT(ToJson([dirs |-> SetToSeq(dirs), listing |-> Listing, latest |-> Latest, put |-> put,
+Export == /\ (dirs = {} /\ put = 0 /\ form = (CHOOSE f \in Forms : TRUE) => PrintT(ToJson([lattice |-> Lattice])))
+          /\ PrintT(ToJson([dirs |-> SetToSeq(dirs), listing |-> Listing, latest |-> Latest, put |-> put, form |-> form, mayreject |-> MayReject,
                             after |-> IF Mode = "generation" THEN ListingAfter ELSE <<>>]))
 =============================================================================
